@@ -1031,7 +1031,12 @@ class Scene(Geometry3D):
         hull : trimesh.Trimesh
           Trimesh object which is a convex hull of all meshes in scene
         """
-        points = util.vstack_empty([m.vertices for m in self.dump()])  # type: ignore
+        vertices = [m.vertices for m in self.dump()]  # type: ignore
+        if len({v.shape[1] for v in vertices if len(v.shape) == 2}) > 1:
+            # planar paths that stay in their plane are dumped as
+            # 2D on the XY plane: stack with the 3D geometry
+            vertices = [util.stack_3D(v) for v in vertices]
+        points = util.vstack_empty(vertices)
         return convex.convex_hull(points)
 
     def export(self, file_obj=None, file_type=None, **kwargs):
